@@ -1,4 +1,5 @@
 SPECIFICATION Spec
+CONSTANT MaxParked = 99
 CONSTANT NTok = 7
 CONSTANT Window = 6
 CONSTANT ReadyTokens = TRUE
